@@ -1,5 +1,6 @@
 """C08: iterative (Dykstra) projection keeps feasible weights, converges to the L2-nearest point.
-Tie: lattice_lib.project_by_dykstra vs Tfl.Lat.projectByDykstraT (per family and combined).
+Tie: lattice_lib.project_by_dykstra vs Tfl.Lat.projectByDykstraT (per family and combined, joint
+unimodality included: every (vertex, offsets) hyperplane group of the real loop is a group of the model).
 Oracle: feasible => unchanged; violation -> 0 as iterations grow; re-projection of a converged
 result does not move it; for the exactly projected families the limit equals the QP optimum
 (scipy SLSQP; labelled a TEST in DESIGN.md: convergence itself is not a theorem); PWL iterative
@@ -12,26 +13,32 @@ from props import c01
 
 RULE = ("lattice configs (rank 1-3, sizes 2-4, <= 36 vertices, units 1-2) with single and combined constraint "
         "families {monotonicity, unimodality, Edgeworth, trapezoid, monotonic dominance, range dominance, joint "
-        "monotonicity}; iterations {0,1,2,5,50}; kernels dyadic/int/wide/feasible. Non-trivial = the projection "
+        "monotonicity, joint unimodality (1-3 jointly unimodal dims of size >= 3, valley / peak; alone and combined "
+        "with the other families wherever verify_hyperparameters accepts the combination)}; iterations {0,1,2,5,50}; kernels dyadic/int/wide/feasible. Non-trivial = the projection "
         "moved the kernel, or the kernel was feasible; distinct = (family set, iterations, kind, moved, hash). "
         "Convergence / nearest-point cases: 2000 iterations vs scipy SLSQP on <= 16 vertices.")
 ASSUMPTIONS = ["float64; model comparison rtol 1e-9*scale",
                "convergence of Dykstra's algorithm (Boyle-Dykstra 1986) is NOT proved; the nearest-point and "
                "violation->0 clauses are tested against a QP solver with tolerance 2e-4*scale",
-               "joint_unimodalities: oracle only (feasibility / fixpoint), not modelled"]
+               "joint_unimodalities: modelled (Tfl.Lat.hyperplaneGroup); combined configurations are generated only where "
+               "lattice_lib.verify_hyperparameters accepts them; LatticeConstraints with joint unimodalities is compared "
+               "non-strict and strict (the strict finalisation ignores joint unimodality in code and model alike)"]
 
-FAMS = ["mono", "uni", "ew", "tz", "md", "rd", "jm"]
+FAMS = ["mono", "uni", "ew", "tz", "md", "rd", "jm", "ju"]
 
 
 def gen_cfg(rng, fams, max_vertices=36):
   while True:
     rank = rng.choice([1, 2, 2, 3])
-    if any(f in fams for f in ("ew", "tz", "md", "rd", "jm")):
+    if any(f in fams for f in ("ew", "tz", "md", "rd", "jm", "ju")):
       rank = max(rank, 2)
+    if "ju" in fams and len(fams) > 1 and rng.random() < 0.6:
+      rank = 3   # room for jointly unimodal dims next to the monotone ones
     sizes = [rng.randint(2, 4) for _ in range(rank)]
     if int(np.prod(sizes)) <= max_vertices:
       break
-  cfg = dict(sizes=sizes, mono=[0] * rank, ew=[], tz=[], uni=[0] * rank, md=[], rd=[], jm=[], lo=None, hi=None)
+  cfg = dict(sizes=sizes, mono=[0] * rank, ew=[], tz=[], uni=[0] * rank, md=[], rd=[], jm=[], ju=[], lo=None,
+             hi=None)
   dims = list(range(rank))
   rng.shuffle(dims)
   need_two_mono = "md" in fams or "rd" in fams
@@ -71,7 +78,134 @@ def gen_cfg(rng, fams, max_vertices=36):
   if "jm" in fams and rank >= 2:
     a, b = rng.sample(range(rank), 2)
     cfg["jm"].append((a, b))
+  if "ju" in fams:
+    add_joint_unimodality(rng, cfg)
   return cfg
+
+
+def add_joint_unimodality(rng, cfg):
+  """Adds one (sometimes two) joint unimodality constraints on non-monotone dims; dims of size >= 3 are
+  grown where needed (verify_hyperparameters wants size >= 3 and no monotonicity on these dims)."""
+  sizes, rank = cfg["sizes"], len(cfg["sizes"])
+  free = [d for d in range(rank) if not cfg["mono"][d]]
+  if not free:
+    d = rng.randrange(rank)
+    cfg["mono"][d] = 0
+    free = [d]
+  k = min(len(free), rng.choice([1, 2, 2, 2, 2, 3]))
+  dims = rng.sample(free, k)
+  for d in dims:
+    if sizes[d] < 3:
+      sizes[d] = 3
+  while int(np.prod(sizes)) > 36:
+    big = [d for d in range(rank) if sizes[d] > (3 if d in dims else 2)]
+    if not big:
+      break
+    sizes[rng.choice(big)] -= 1
+  cfg["ju"].append((tuple(dims), rng.choice(["valley", "peak"])))
+  rest = [d for d in free if d not in dims and sizes[d] >= 3]
+  if rest and rng.random() < 0.2:
+    cfg["ju"].append(((rng.choice(rest),), rng.choice(["valley", "peak"])))
+
+
+def accepted(cfg):
+  """Does the real verify_hyperparameters accept the configuration?"""
+  from tensorflow_lattice.python import lattice_lib
+  try:
+    lattice_lib.verify_hyperparameters(
+        lattice_sizes=list(cfg["sizes"]), monotonicities=list(cfg["mono"]),
+        unimodalities=list(cfg["uni"]) if any(cfg["uni"]) else None,
+        edgeworth_trusts=[tuple(t) for t in cfg["ew"]] or None, trapezoid_trusts=[tuple(t) for t in cfg["tz"]] or None,
+        monotonic_dominances=[tuple(t) for t in cfg["md"]] or None,
+        range_dominances=[tuple(t) for t in cfg["rd"]] or None,
+        joint_monotonicities=[tuple(t) for t in cfg["jm"]] or None, joint_unimodalities=jus_of(cfg))
+    return True
+  except ValueError:
+    return False
+
+
+def jus_of(cfg):
+  return [(tuple(d), dr) for d, dr in cfg.get("ju", [])] or None
+
+
+def ju_hyperplanes(cfg):
+  """Independent reading of the joint unimodality definition: for every constrained vertex v != centre and
+  every adjacent hypercube (offsets o in {-1,1}^k whose neighbours along the dims with v_d != c_d exist),
+  sum_d (v_d - c_d) * o_d * (L[v + o_d e_d] - L[v]) is >= 0 (valley) / <= 0 (peak), in every slice of the
+  other dimensions. Yields (sign, [(coef, full index)...]) with sign*sum >= 0."""
+  sizes = cfg["sizes"]
+  rank = len(sizes)
+  for dims, direction in cfg.get("ju", []):
+    dims = list(dims)
+    others = [d for d in range(rank) if d not in dims]
+    centre = [sizes[d] // 2 for d in dims]
+    sign = 1 if direction == "valley" else -1
+    for v in itertools.product(*[range(sizes[d]) for d in dims]):
+      for o in itertools.product([-1, 1], repeat=len(dims)):
+        terms, ok = [], True
+        for t in range(len(dims)):
+          wgt = v[t] - centre[t]
+          if wgt == 0:
+            continue
+          nb = v[t] + o[t]
+          if nb < 0 or nb >= sizes[dims[t]]:
+            ok = False
+            break
+          terms.append((wgt * o[t], t, nb))
+        if not ok or not terms:
+          continue
+        for rest in itertools.product(*[range(sizes[d]) for d in others]):
+          base = [0] * rank
+          for d, x in zip(others, rest):
+            base[d] = x
+          for t, d in enumerate(dims):
+            base[d] = v[t]
+          row = []
+          for coef, t, nb in terms:
+            j = list(base)
+            j[dims[t]] = nb
+            row.append((coef, tuple(j)))
+          row.append((-sum(c for c, _, _ in terms), tuple(base)))
+          yield sign, row
+
+
+def ju_violation(cfg, t):
+  v = 0.0
+  for sign, row in ju_hyperplanes(cfg):
+    v = max(v, -sign * sum(c * t[j] for c, j in row))
+  return float(v)
+
+
+def full_violation(cfg, t):
+  return max(c01.max_violation(cfg, t), ju_violation(cfg, t))
+
+
+def feasible_with_ju(rng, cfg, units):
+  """Feasible kernel: the c01 construction plus a cone around the centre of every jointly unimodal group
+  (checked with the independent violation functions; falls back to the c01 kernel, then to constants)."""
+  w = c01.feasible_kernel(rng, cfg, units)
+  if not cfg.get("ju"):
+    return w
+  sizes = cfg["sizes"]
+  cols = []
+  for u in range(units):
+    col = [row[u] for row in w]
+    k = Fraction(rng.randint(0, 6), 4)
+    cone = []
+    for idx in itertools.product(*[range(s) for s in sizes]):
+      c = Fraction(0)
+      for dims, direction in cfg["ju"]:
+        c += (1 if direction == "valley" else -1) * k * sum(abs(idx[d] - sizes[d] // 2) for d in dims)
+      cone.append(c)
+    cand = [a + b for a, b in zip(col, cone)]
+    t = np.array([float(x) for x in cand]).reshape(sizes)
+    if full_violation(cfg, t) > 0:
+      cand = col
+      t = np.array([float(x) for x in cand]).reshape(sizes)
+      if full_violation(cfg, t) > 0:
+        cand = [col[0]] * len(col)
+    cols.append(cand)
+  return [[cols[u][i] for u in range(units)] for i in range(len(cols[0]))]
 
 
 def real_dykstra(cfg, wf, iters, jus=None, graph=False):
@@ -90,14 +224,30 @@ def _dykstra_call(lattice_lib, cfg, w, iters, jus):
       unimodalities=list(cfg["uni"]) if any(cfg["uni"]) else None,
       edgeworth_trusts=[tuple(t) for t in cfg["ew"]] or None, trapezoid_trusts=[tuple(t) for t in cfg["tz"]] or None,
       monotonic_dominances=[tuple(t) for t in cfg["md"]] or None, range_dominances=[tuple(t) for t in cfg["rd"]] or None,
-      joint_monotonicities=[tuple(t) for t in cfg["jm"]] or None, joint_unimodalities=jus,
+      joint_monotonicities=[tuple(t) for t in cfg["jm"]] or None,
+      joint_unimodalities=jus if jus is not None else jus_of(cfg),
       num_iterations=iters)
 
 
+def ju_tok(cfg):
+  """joint unimodalities on the wire: `d1,d2,...,flag;...` with flag 1 = valley, 0 = peak"""
+  return il2([list(d) + [1 if dr == "valley" else 0] for d, dr in cfg.get("ju", [])])
+
+
 def model_line(cfg, col, iters):
+  if cfg.get("ju"):
+    return "lat.dykstra %s %s %s %s %s %s %s %s %s %d %s" % (
+        il(cfg["sizes"]), il(cfg["mono"]), il(cfg["uni"]), il2(cfg["ew"]), il2(cfg["tz"]), il2(cfg["md"]),
+        il2(cfg["rd"]), il2(cfg["jm"]), ju_tok(cfg), iters, frl(col))
   return "lat.dykstra %s %s %s %s %s %s %s %s %d %s" % (
       il(cfg["sizes"]), il(cfg["mono"]), il(cfg["uni"]), il2(cfg["ew"]), il2(cfg["tz"]), il2(cfg["md"]),
       il2(cfg["rd"]), il2(cfg["jm"]), iters, frl(col))
+
+
+def constraint_line(cfg, col, iters, strict):
+  return "lat.constraint %s %s %s %s %s %s %s %s %s %s %s %d %d %s" % (
+      il(cfg["sizes"]), il(cfg["mono"]), il(cfg["uni"]), il2(cfg["ew"]), il2(cfg["tz"]), il2(cfg["md"]),
+      il2(cfg["rd"]), il2(cfg["jm"]), ju_tok(cfg), opt(cfg["lo"]), opt(cfg["hi"]), iters, int(strict), frl(col))
 
 
 def constraint_rows(cfg):
@@ -157,6 +307,8 @@ def constraint_rows(cfg):
         add([(-2, idx), (1, pa), (1, pb)])
     for (a, b) in cfg["rd"]:
       add([(1, st(idx, a, sizes[a] - 1)), (-1, st(idx, a, 0)), (-1, st(idx, b, sizes[b] - 1)), (1, st(idx, b, 0))])
+  for sign, row in ju_hyperplanes(cfg):
+    add([(sign * c, j) for c, j in row])
   return np.array(rows) if rows else np.zeros((0, n))
 
 
@@ -175,18 +327,31 @@ def run(ctx):
   lines, pending = [], []
   # ---- (1) correspondence per family and combined
   combos = [[f] for f in FAMS] + [["mono", "ew"], ["mono", "tz"], ["mono", "ew", "tz"], ["mono", "md"], ["mono", "rd"],
-                                   ["mono", "uni"], ["mono", "jm"], ["uni", "jm"], ["mono", "ew", "tz", "md", "jm"]]
-  for _ in range(ctx.n(150, 4000)):
+                                   ["mono", "uni"], ["mono", "jm"], ["uni", "jm"], ["mono", "ew", "tz", "md", "jm"],
+                                   ["ju"], ["ju"], ["mono", "ju"], ["uni", "ju"], ["jm", "ju"], ["mono", "ew", "ju"],
+                                   ["mono", "tz", "ju"], ["mono", "md", "ju"], ["mono", "ew", "tz", "md", "jm", "ju"]]
+  for _ in range(ctx.n(190, 5000)):
     fams = rng.choice(combos)
     cfg = gen_cfg(rng, fams)
+    if "ju" in fams:
+      for _try in range(30):
+        if accepted(cfg):
+          break
+        ctx.count("ju_rejected_by_verify")
+        cfg = gen_cfg(rng, fams)
+      else:
+        continue
+      ctx.count("ju_dims:%d" % len(cfg["ju"][0][0]))
     n = int(np.prod(cfg["sizes"]))
     units = rng.choice([1, 1, 2])
     r = rng.random()
     if r < 0.2:
-      kind, w = "feasible", c01.feasible_kernel(rng, cfg, units)
+      kind, w = "feasible", feasible_with_ju(rng, cfg, units)
     else:
       kind, w = c01.gen_kernel(rng, n, units)
     iters = rng.choice([0, 1, 2, 5, 50])
+    if cfg["ju"] and iters == 50 and (n > 18 or len(cfg["ju"][0][0]) > 2):
+      iters = 5   # hundreds of hyperplane groups per pass: keep the exact-rational model run short
     wf = np.array([[float(v) for v in row] for row in w])
     try:
       out, err = real_dykstra(cfg, wf, iters), None
@@ -197,13 +362,20 @@ def run(ctx):
     pending.append((dict(cfg=cfg, kind=kind, iters=iters, w=w, fams=fams), wf, out, err, units))
   finish(ctx, lines, pending)
   # ---- (2) convergence, re-projection, nearest point (oracle only)
-  exact = ["mono", "uni", "ew", "tz", "md", "jm"]
-  for it in range(ctx.n(12, 150)):
+  exact = ["mono", "uni", "ew", "tz", "md", "jm", "ju"]
+  for it in range(ctx.n(14, 170)):
     # stratified: every exactly-projected family leads at least twice per quick run
     fams = [exact[it % len(exact)]] + rng.sample([f for f in exact if f != exact[it % len(exact)]], rng.choice([0, 0, 1, 2]))
     if "rd" not in fams and rng.random() < 0.15:
       fams = fams + ["rd"]
     cfg = gen_cfg(rng, fams, max_vertices=16)
+    if "ju" in fams:
+      for _try in range(40):
+        if accepted(cfg) and int(np.prod(cfg["sizes"])) <= 18:
+          break
+        cfg = gen_cfg(rng, fams, max_vertices=16)
+      else:
+        continue
     for _try in range(20):
       # trusts: prefer shapes where main and conditional sizes differ (size-2 main with a longer conditional axis)
       if not (cfg["tz"] or cfg["ew"]) or it % 2 == 0:
@@ -218,9 +390,10 @@ def run(ctx):
       kind, w = "dyadic", [[gen_value(rng, "dyadic")] for _ in range(n)]
     wf = np.array([[float(v) for v in row] for row in w])
     convergence_case(ctx, cfg, fams, kind, w, wf)
-  # ---- (3) joint unimodality: oracle only
+  # ---- (3) joint unimodality: cone fixpoint / re-projection oracle, LatticeConstraints correspondence
   for _ in range(ctx.n(6, 60)):
     joint_unimodality_case(ctx, rng)
+  layer_cases(ctx, rng)
   # ---- (4) PWL iterative projection
   for _ in range(ctx.n(40, 600)):
     pwl_case(ctx, rng)
@@ -253,7 +426,7 @@ def finish(ctx, lines, pending):
     if not np.all(np.isfinite(out)):
       ctx.fail("finite", key, case, out)
       continue
-    feas = all(c01.max_violation(cfg, wf[:, u].reshape(cfg["sizes"])) <= 0 for u in range(units))
+    feas = all(full_violation(cfg, wf[:, u].reshape(cfg["sizes"])) <= 0 for u in range(units))
     if feas:
       ctx.count("feasible_inputs")
       mv = float(np.max(np.abs(out - wf)))
@@ -271,9 +444,9 @@ def convergence_case(ctx, cfg, fams, kind, w, wf):
     viol = []
     for it in (1, 10, 100):
       o = real_dykstra(cfg, wf, it, graph=it > 10)
-      viol.append(c01.max_violation(cfg, o[:, 0].reshape(sizes)))
+      viol.append(full_violation(cfg, o[:, 0].reshape(sizes)))
     out = real_dykstra(cfg, wf, 2000, graph=True)
-    viol.append(c01.max_violation(cfg, out[:, 0].reshape(sizes)))
+    viol.append(full_violation(cfg, out[:, 0].reshape(sizes)))
     again = real_dykstra(cfg, out, 2000, graph=True)
   except Exception as e:
     ctx.fail("raises", key, case, classify_exc(e) + ": " + str(e)[:200])
@@ -304,6 +477,9 @@ def convergence_case(ctx, cfg, fams, kind, w, wf):
       else:
         ctx.notes.append("QP solver inaccurate (farther than Dykstra) for %s" % cls)
     # the strict layer constraint with many iterations stays close to the nearest point
+    # (not asked of joint unimodality: the strict finalisation does not know that family)
+    if cfg.get("ju"):
+      return
     try:
       import tensorflow as tf
       strict = tf.function(lambda: tf.constant(0.0))  # placeholder to keep tf imported
@@ -361,6 +537,56 @@ def joint_unimodality_case(ctx, rng):
     ctx.fail("reprojection", key, case, float(np.max(np.abs(again - out))))
   if float(np.max(np.abs(fixed - cone))) > 1e-9:
     ctx.fail("fixpoint", key, case, fixed, "feasible cone kernel moved")
+
+
+def layer_cases(ctx, rng):
+  """LatticeConstraints.__call__ with joint unimodalities (alone: the `or joint_unimodalities` clause of the
+  activity test; and combined) against the model's `lat.constraint`."""
+  import tensorflow as tf
+  from tensorflow_lattice.python import lattice_layer
+  lines, pend = [], []
+  for _ in range(ctx.n(16, 200)):
+    fams = rng.choice([["ju"], ["ju"], ["mono", "ju"], ["uni", "ju"], ["mono", "ew", "ju"]])
+    for _try in range(30):
+      cfg = gen_cfg(rng, fams, max_vertices=27)
+      if accepted(cfg):
+        break
+    else:
+      continue
+    n = int(np.prod(cfg["sizes"]))
+    kind, w = c01.gen_kernel(rng, n, 1)
+    if kind in ("huge", "tiny"):
+      kind, w = "dyadic", [[gen_value(rng, "dyadic")] for _ in range(n)]
+    wf = np.array([[float(v) for v in row] for row in w])
+    iters = rng.choice([1, 2, 5])
+    strict = rng.random() < 0.4
+    if rng.random() < 0.4:
+      cfg["lo"], cfg["hi"] = Fraction(-1), Fraction(2)
+    case = dict(cfg=cfg, kind=kind, iters=iters, w=w, fams=fams, strict=strict)
+    key = dict(suite="layer_ju", fams="+".join(fams), kind=kind)
+    try:
+      cons = lattice_layer.LatticeConstraints(
+          lattice_sizes=list(cfg["sizes"]), monotonicities=list(cfg["mono"]),
+          unimodalities=list(cfg["uni"]) if any(cfg["uni"]) else None,
+          edgeworth_trusts=[tuple(t) for t in cfg["ew"]] or None, trapezoid_trusts=[tuple(t) for t in cfg["tz"]] or None,
+          joint_unimodalities=jus_of(cfg), output_min=c01.fl(cfg["lo"]), output_max=c01.fl(cfg["hi"]),
+          num_projection_iterations=iters, enforce_strict_monotonicity=strict)
+      out = cons(tf.constant(wf, dtype=tf.float64)).numpy()
+    except Exception as e:
+      ctx.fail("raises", key, case, classify_exc(e) + ": " + str(e)[:200])
+      continue
+    lines.append(constraint_line(cfg, [r[0] for r in w], iters, strict))
+    pend.append((case, key, wf, out))
+  replies = run_driver(lines, timeout=900)
+  for (case, key, wf, out), r in zip(pend, replies):
+    ctx.count("layer_ju:" + key["fams"])
+    ctx.case(sig=("layer_ju", key["fams"], case["iters"], case["strict"], hash(wf.tobytes()) % 9973),
+             nontrivial=bool(np.any(out != wf)), sample=dict(case=case, out=out))
+    if r.startswith("ERR") or r == "bad-op":
+      ctx.disagree("LatticeConstraints(joint_unimodalities)", case, out[:, 0], r, "model rejects")
+      continue
+    ctx.compare("LatticeConstraints(joint_unimodalities)", case, out[:, 0], parse_rats(r), max_abs(wf.ravel()),
+                rtol=1e-9)
 
 
 def pwl_case(ctx, rng):
@@ -435,6 +661,7 @@ def replay(ctx, failure):
     cfg = case["cfg"]
     for k in ("ew", "tz", "md", "rd", "jm"):
       cfg[k] = [tuple(t) for t in cfg[k]]
+    cfg["ju"] = [(tuple(d), dr) for d, dr in cfg.get("ju", [])]
     w = [[Fraction(v) for v in row] for row in case["w"]]
     wf = np.array([[float(v) for v in row] for row in w])
     if key["suite"] == "convergence":
